@@ -22,8 +22,16 @@ func c06Profiles(tier string) []Profile {
 	targets := [][]byte{nil, {}, bs("a"), bs("b"), bs("c"), bs("d"), bs("dd"), bs("ddd"), bs("e"), bs("f"), bs("g")}
 	cmps := []string{"nil", "rev", "len"}
 	mk := func(cmp string) *SeqProfile {
-		return &SeqProfile{Name: "range-" + cmp, Keys: keys, Depth: depth,
-			Init: func(w *harness.World) { w.SetCollection("x", cmp) },
+		other := map[string]string{"nil": "rev", "rev": "nil", "len": "rev"}[cmp]
+		return &SeqProfile{Name: "range-" + cmp, Keys: keys, Depth: depth, MapOrders: true,
+			Init: func(w *harness.World) {
+				w.SetCollection("x", cmp)
+				// a neighbour collection under a different comparator: every way of
+				// re-loading the roots must keep the two orders apart
+				w.SetCollection("w", other)
+				w.SetItem("w", bs("m"), 1, bs("wm"))
+				w.SetItem("w", bs("n"), 2, bs("wn"))
+			},
 			Finish: func(w *harness.World) {
 				// cache state
 				cs := harness.Choose(6, harness.ClassOp)
